@@ -102,6 +102,9 @@ pub struct Net {
     pub next_port: u16,
     pub knobs: Knobs,
     pub accept_faults: VecDeque<AcceptFault>,
+    /// Every accept with a pending connection fails with EMFILE (a process that stays out
+    /// of file descriptors).
+    pub accept_always_emfile: bool,
     pub bind_fault: bool,
 }
 
@@ -175,6 +178,11 @@ impl World {
             .map(|l| !l.queue.is_empty())
             .unwrap_or(false);
         if has_pending {
+            if self.net.accept_always_emfile {
+                self.count("fault.accept_emfile");
+                self.log(Ev::AcceptFault(24));
+                return Poll::Ready(Err(std::io::Error::from_raw_os_error(24)));
+            }
             if let Some(f) = self.net.accept_faults.pop_front() {
                 match f {
                     AcceptFault::Emfile => {
